@@ -498,7 +498,7 @@ char *qstrgets(char *buf, size_t size, char **offset) {
  * @note This modify str directly.
  */
 char *qstrrev(char *str) {
-    if (str == NULL)
+    if (str == NULL || *str == '\0')
         return str;
 
     char *p1, *p2;
